@@ -39,6 +39,9 @@ func genKeyBytes(r *Rng) []byte {
 
 func bucketOf(cfg *SimCfg, key []byte) int {
 	h := refKeyHash(key)
+	if hashOverride != nil {
+		h = hashOverride(key)
+	}
 	switch cfg.NumBucket {
 	case 16:
 		return int(h >> 60)
@@ -209,8 +212,9 @@ func genSeqPlan(prop string, seed uint64, tier string) *Plan {
 		}
 		c.NoGCDays = r.Pick(0, 0, 1, 7)
 	case "C13":
-		w.restart = 3
+		w.restart = 4
 		w.gc = 3
+		nKeys = r.Range(5, 12)
 		c.DataFileMax = r.Pick64(1024, 2048, 4096, 65536)
 		c.NoGCDays = 0
 	case "C15":
@@ -286,12 +290,78 @@ func genSeqPlan(prop string, seed uint64, tier string) *Plan {
 			nUnserved = 4
 		}
 	}
-	p.Keys = genKeys(r, c, nServed, nUnserved)
+	bulk := 0
+	if prop == "C08" && len(c.Served) > 0 && r.Bool(1, 5) {
+		// bulk world: 110..330 keys forced into one leaf
+		bulk = r.Pick(110, 150, 260, 330)
+		b := c.Served[0]
+		top := uint64(r.Intn(1 << 20))
+		switch c.NumBucket {
+		case 16:
+			top = top&0x0ffff | uint64(b)<<16
+		case 256:
+			top = top&0x00fff | uint64(b)<<12
+		}
+		p.Extra["bulkTop"] = int64(top)
+		nServed = bulk
+		nUnserved = 0
+		c.Served = []int{b}
+		c.DataFileMax = r.Pick64(1<<20, 4000<<20)
+		c.normalize()
+	}
+	if bulk > 0 {
+		// with the override every key is routed to the chosen bucket
+		seen := map[string]bool{}
+		for len(p.Keys) < bulk {
+			k := genKeyBytes(r)
+			if len(k) > 40 {
+				k = k[:40]
+			}
+			if !seen[string(k)] {
+				seen[string(k)] = true
+				p.Keys = append(p.Keys, k)
+			}
+		}
+	} else {
+		p.Keys = genKeys(r, c, nServed, nUnserved)
+	}
+	if prop == "C13" && len(p.Keys) >= 4 {
+		// 1..3 groups of 2..4 keys forced onto one key hash (all in served buckets: the group
+		// takes the hash, hence the bucket, of its first key)
+		var servedKeys []int
+		for i, k := range p.Keys {
+			if c.served(bucketOf(c, k)) {
+				servedKeys = append(servedKeys, i)
+			}
+		}
+		perm := r.Perm(len(servedKeys))
+		ng := r.Range(1, 3)
+		pos := 0
+		for gi := 0; gi < ng; gi++ {
+			sz := r.Range(2, 4)
+			if pos+sz > len(perm) {
+				break
+			}
+			var grp []int
+			for j := 0; j < sz; j++ {
+				grp = append(grp, servedKeys[perm[pos+j]])
+			}
+			pos += sz
+			p.Groups = append(p.Groups, grp)
+		}
+	}
 	restarts := 0
 	weights := []int{w.set, w.del, w.incr, w.get, w.mget, w.meta, w.meta2, w.flush, w.tick, w.dump, w.advance, w.restart, w.gc, w.listing}
 	kinds := []string{"set", "del", "incr", "get", "mget", "meta", "meta2", "flush", "tick", "dump", "advance", "restart", "gc", "list"}
+	idBase := 0
+	if bulk > 0 {
+		for k := 0; k < bulk; k++ {
+			idBase++
+			p.Ops = append(p.Ops, Op{ID: idBase, Kind: "set", K: k, V: ValSpec{Class: VConst, Len: r.Range(8, 20), Seed: uint32(r.U64())}})
+		}
+	}
 	for i := 0; i < nOps; i++ {
-		op := Op{ID: i + 1}
+		op := Op{ID: idBase + i + 1}
 		op.Kind = kinds[r.Weighted(weights)]
 		op.K = r.Intn(len(p.Keys))
 		switch op.Kind {
@@ -371,6 +441,15 @@ func genSeqPlan(prop string, seed uint64, tier string) *Plan {
 			}
 		case "list":
 			op.Delta = int64(r.U64() >> 1)
+		}
+		if op.Kind == "set" && op.Rev != 0 {
+			for _, grp := range p.Groups {
+				for _, ki := range grp {
+					if ki == op.K {
+						op.Rev = 0 // versions of colliding keys are unspecified, so is the fate of an explicit revision
+					}
+				}
+			}
 		}
 		p.Ops = append(p.Ops, op)
 	}
